@@ -56,6 +56,9 @@ func (c10Harness) Gen(r *verifsim.SplitMix, tier string, idx int) any {
 			}
 			if i > 1 && r.Chance(1, 6) {
 				c.ID = "p1" // duplicate peer id: a reconnect that replaces the earlier connection
+			} else if i > 0 && r.Chance(1, 8) {
+				// a different peer whose id differs from another's only in the case of a letter
+				c.ID = []string{"P1", "Host", "P2", "HOST"}[r.Intn(4)]
 			}
 			na := 1 + r.Intn(6)
 			for a := 0; a < na; a++ {
@@ -68,8 +71,10 @@ func (c10Harness) Gen(r *verifsim.SplitMix, tier string, idx int) any {
 					c.Acts = append(c.Acts, c10Act{K: "spoof", To: r.Intn(n), N: 1})
 				case x < 70:
 					c.Acts = append(c.Acts, c10Act{K: "xsess", To: r.Intn(n), N: 1})
-				case x < 76:
+				case x < 74:
 					c.Acts = append(c.Acts, c10Act{K: "send", To: -1, N: 1})
+				case x < 76:
+					c.Acts = append(c.Acts, c10Act{K: "send", To: -2, N: 1}) // a connected peer's id in another case: nobody by that name
 				case x < 82:
 					c.Acts = append(c.Acts, c10Act{K: []string{"garbage", "noid"}[r.Intn(2)]})
 				case x < 88:
@@ -270,6 +275,14 @@ func (c10Harness) Run(spec any) (res verifsim.RunResult) {
 					write(b)
 				}
 				peerName := func(k int) string {
+					if k == -2 {
+						// the id of the session's first peer with the case of its letters swapped
+						id := sp.Clients[bySess[cl.Sess][0]].ID
+						if up := strings.ToUpper(id); up != id {
+							return up
+						}
+						return strings.ToLower(id)
+					}
 					if k < 0 {
 						return "nobody-by-that-name"
 					}
